@@ -41,9 +41,8 @@ func dumpFunc(p *Program, spec string) {
 			for _, in := range b.Instrs {
 				switch x := in.(type) {
 				case ssa.CallInstruction:
-					var v ssa.Value = x.Value()
-					if v != nil {
-						fmt.Printf("   %s  call %s\n", p.pos(instrPos(in)), tb.Term(v))
+					if cv, isCall := in.(*ssa.Call); isCall {
+						fmt.Printf("   %s  call %s\n", p.pos(instrPos(in)), tb.Term(cv))
 					} else {
 						fmt.Printf("   %s  %s %s\n", p.pos(instrPos(in)), in, calleeName(x.Common()))
 					}
